@@ -55,7 +55,8 @@ type c15Gate struct {
 	ln    net.Listener
 	raw   int
 	conns []net.Conn
-	up    bool // scripted server health (corpus b): answer or stay silent
+	up    bool           // scripted server (real-call histories): answer or stay silent
+	got   map[int32]bool // request ids this server has read
 }
 
 var c15Gates []*c15Gate
@@ -91,15 +92,7 @@ func (g *c15Gate) acceptLoop(ln net.Listener) {
 		g.mu.Lock()
 		g.conns = append(g.conns, c)
 		g.mu.Unlock()
-		go func() {
-			buf := make([]byte, 4096)
-			for {
-				if _, err := c.Read(buf); err != nil {
-					c.Close()
-					return
-				}
-			}
-		}()
+		go g.serve(c)
 	}
 }
 
@@ -213,6 +206,8 @@ type c15Case struct {
 	Name     string  `json:"name"`
 	Ops      []c15Op `json:"ops"`
 	Up       []bool  `json:"up"` // initial scripted server health per endpoint
+	E2E      bool    `json:"e2e,omitempty"`      // real calls: TarsInvoke -> doInvoke against scripted servers
+	Timeout  int     `json:"timeout_ms,omitempty"`
 	Skipped  bool    `json:"skipped,omitempty"`
 	Retries  int     `json:"retries,omitempty"`
 	Diverted int     `json:"hash_calls_diverted_as_probe,omitempty"`
@@ -247,6 +242,13 @@ type c15Run struct {
 	c14     []Failure
 	classes map[string]bool
 	divert  int
+	// real-call histories (c15e2e.go)
+	e2e       bool
+	sp        *tars.ServantProxy
+	timeoutMs int
+	wall      int64 // wall-clock second the model clock is synchronised to
+	straddled bool  // a time-sensitive step ran across a wall-clock second boundary: the history is re-run
+	sent      []c15Sent
 }
 
 func (r *c15Run) fail(sig, desc string) {
@@ -412,14 +414,22 @@ func (r *c15Run) shift(d int64) {
 
 func (r *c15Run) account(ai int, ok bool) {
 	a := r.adps[ai]
-	sh := r.sh[ai]
 	a.VerifC15SendAdd()
 	if ok {
 		a.VerifC15SuccessAdd()
+	} else {
+		a.VerifC15FailAdd()
+	}
+	r.shadowOutcome(ai, ok)
+}
+
+// ground truth in the property's terms: what the caller saw
+func (r *c15Run) shadowOutcome(ai int, ok bool) {
+	sh := r.sh[ai]
+	if ok {
 		sh.streak = 0
 		sh.lastSucc = r.now
 	} else {
-		a.VerifC15FailAdd()
 		sh.streak++
 		sh.gfail++
 	}
@@ -427,6 +437,11 @@ func (r *c15Run) account(ai int, ok bool) {
 
 func (r *c15Run) reinstate(ai int) (string, c15Snap) {
 	r.mgr.Reinstate(r.adps[ai])
+	return r.afterReinstate(ai)
+}
+
+// checks once reset+addAliveEp have run for adapter ai
+func (r *c15Run) afterReinstate(ai int) (string, c15Snap) {
 	sh := r.sh[ai]
 	sh.gfail, sh.streak = 0, 0
 	s := r.snap()
@@ -435,18 +450,30 @@ func (r *c15Run) reinstate(ai int) (string, c15Snap) {
 		r.fail("failover/not-reinstated-after-successful-probe", fmt.Sprintf("after the reinstatement of endpoint %d: status=%v failCount=%d lastFailCount=%d sendCount=%d in selectors=%v", sh.eid, h.Status, h.FailCount, h.LastFailCount, h.SendCount, r.inSelectors(s, sh.eid)))
 	}
 	r.classes["reinstated"] = true
-	return fmt.Sprintf("(Reinstate %d, %s)", ai, r.obs(s, true)), s
+	return fmt.Sprintf("([Reinstate %d], %s)", ai, r.obs(s, true)), s
 }
 
 // exec runs one op on the implementation and returns the model labels (with observations) it corresponds to.
 func (r *c15Run) exec(op *c15Op, last bool) {
 	var lbl []string
+	if r.e2e {
+		switch op.K {
+		case "call":
+			r.syncWall(r.timeoutMs+40, &lbl)
+		case "adv", "check", "refresh":
+			r.syncWall(0, &lbl)
+		case "out", "reinst":
+			op.Txt = "not used in real-call histories"
+			return
+		}
+		defer r.checkWall()
+	}
 	switch op.K {
 	case "adv":
 		r.shift(op.D)
 		s := r.snap()
 		r.always("adv", s)
-		lbl = append(lbl, fmt.Sprintf("(Advance %d, %s)", op.D, r.obs(s, last)))
+		lbl = append(lbl, fmt.Sprintf("([Advance %d], %s)", op.D, r.obs(s, last)))
 		op.Txt = fmt.Sprintf("+%ds", op.D)
 	case "net":
 		g := c15Gates[op.E]
@@ -464,6 +491,7 @@ func (r *c15Run) exec(op *c15Op, last bool) {
 		op.Txt = fmt.Sprintf("net %d %v", op.E, op.Ok)
 	case "up":
 		r.up[op.E] = op.Ok
+		c15Gates[op.E].setUp(op.Ok)
 		op.Txt = fmt.Sprintf("server %d answers=%v", op.E, op.Ok)
 	case "out":
 		a, ok := r.mgr.Adapters()[c15Gates[op.E].host]
@@ -475,7 +503,7 @@ func (r *c15Run) exec(op *c15Op, last bool) {
 		r.account(ai, op.Ok)
 		s := r.snap()
 		r.always("out", s)
-		lbl = append(lbl, fmt.Sprintf("(Out %d %s false, %s)", ai, coqBool(op.Ok), r.obs(s, last)))
+		lbl = append(lbl, fmt.Sprintf("([Out %d %s false], %s)", ai, coqBool(op.Ok), r.obs(s, last)))
 		op.Txt = fmt.Sprintf("out adapter %d (endpoint %d) ok=%v", ai, op.E, op.Ok)
 	case "check":
 		before := r.snap()
@@ -525,90 +553,41 @@ func (r *c15Run) exec(op *c15Op, last bool) {
 				reach = append(reach, e)
 			}
 		}
-		lbl = append(lbl, fmt.Sprintf("(Check %s, %s)", c15List(reach), r.obs(s, true)))
+		lbl = append(lbl, fmt.Sprintf("([Check %s], %s)", c15List(reach), r.obs(s, true)))
 		op.Txt = fmt.Sprintf("check: status=%b queue=%d", s.st, s.q)
 	case "call":
+		if r.e2e {
+			lbl = append(lbl, r.e2eCall(op, last)...)
+			break
+		}
 		before := r.snap()
 		ht := tars.ModHash
 		if op.Hash == 2 {
 			ht = tars.ConsistentHash
 		}
-		// where the hash selectors alone would send this call (C14's manager-level clause)
-		hashWant := ""
-		if op.Hash != 0 {
-			_, ch, mh := r.mgr.Selectors()
-			m := &tars.Message{}
-			m.SetHash(op.Code, ht)
-			if op.Hash == 1 && mh != nil {
-				if ep, err := mh.Select(m); err == nil {
-					hashWant = ep.Host
-				}
-			}
-			if op.Hash == 2 && ch != nil {
-				if ep, err := ch.Select(m); err == nil {
-					hashWant = ep.Host
-				}
-			}
-		}
+		hashWant := r.hashWant(op, ht)
 		adp, probe := r.mgr.Select(op.Hash != 0, ht, op.Code)
 		if adp == nil {
-			s := r.snap()
-			if len(r.mgr.Registry()) > 0 {
-				r.fail("failover/select-none-with-registry", fmt.Sprintf("the registry lists %d endpoint(s) (active in rotation: %b) but SelectAdapterProxy returned no adapter: the call fails outright", len(r.mgr.Registry()), s.rr))
-			}
-			r.always("call", s)
-			lbl = append(lbl, fmt.Sprintf("(SelNone, %s)", r.obs(s, last)))
-			op.Txt = "call: no adapter"
+			lbl = append(lbl, r.selectedNone(op, last))
 			break
 		}
-		ai, fresh := r.idOf(adp)
+		ai, _ := r.idOf(adp)
 		sh := r.sh[ai]
 		s := r.snap()
+		r.monSelected(op, before, ai, probe, hashWant)
 		if probe {
-			sh.probes++
-			if sh.probes > sh.enq {
-				r.fail("failover/probe-not-single", fmt.Sprintf("adapter %d (endpoint %d) handed out as probe %d times for %d queued request(s)", ai, sh.eid, sh.probes, sh.enq))
-			}
-			r.pcall[ai] = true
-			lbl = append(lbl, fmt.Sprintf("(SelProbe %d, %s)", ai, r.obs(s, false)))
-			r.classes["probe-call"] = true
-			if op.Hash != 0 {
-				r.classes["probe-call-hash"] = true
-				if hashWant != "" && hashWant != c15Gates[sh.eid].host {
-					r.divert++
-					r.c14 = append(r.c14, Failure{Sig: "hash-routing/call-diverted-as-failover-probe", Desc: fmt.Sprintf("a call carrying hash type %d code %d is owned by endpoint %d under the current endpoint set but was sent to blocked endpoint %d as its failover probe", op.Hash, op.Code, c15EidOfHost(hashWant), sh.eid)})
-				}
-			}
+			lbl = append(lbl, fmt.Sprintf("([SelProbe %d], %s)", ai, r.obs(s, false)))
 		} else {
-			if before.rr != 0 && !r.shrunk && before.rr&(1<<uint(sh.eid)) == 0 {
-				r.fail("failover/blocked-endpoint-selected", fmt.Sprintf("endpoint %d is out of rotation (rr=%b) but a normal call was routed to it", sh.eid, before.rr))
-			}
-			if before.rr == 0 {
-				r.classes["all-blocked-fallback"] = true
-			}
-			if op.Hash != 0 && hashWant != "" && hashWant != c15Gates[sh.eid].host {
-				r.c14 = append(r.c14, Failure{Sig: "hash-routing/ctx-not-routed-by-hash", Desc: fmt.Sprintf("hash type %d code %d: selector says endpoint %d, SelectAdapterProxy returned endpoint %d (no probe pending)", op.Hash, op.Code, c15EidOfHost(hashWant), sh.eid)})
-			}
-			if op.Hash != 0 {
-				r.classes["hash-call"] = true
-			}
-			lbl = append(lbl, fmt.Sprintf("(SelPick %d %d, %s)", sh.eid, ai, r.obs(s, false)))
+			lbl = append(lbl, fmt.Sprintf("([SelPick %d %d], %s)", sh.eid, ai, r.obs(s, false)))
 		}
-		_ = fresh
 		r.always("call", s)
 		ok := r.up[sh.eid]
 		r.account(ai, ok)
-		delete(r.pcall, ai)
 		s = r.snap()
 		r.always("out", s)
-		lbl = append(lbl, fmt.Sprintf("(Out %d %s %s, %s)", ai, coqBool(ok), coqBool(probe), r.obs(s, last && !(probe && ok && !op.Defer))))
+		lbl = append(lbl, fmt.Sprintf("([Out %d %s %s], %s)", ai, coqBool(ok), coqBool(probe), r.obs(s, last && !(probe && ok && !op.Defer))))
 		op.Txt = fmt.Sprintf("call -> adapter %d endpoint %d probe=%v ok=%v", ai, sh.eid, probe, ok)
-		if probe && !ok {
-			if adp.VerifC15Health().Status || (!r.shrunk && r.inAnySelector(s, sh.eid)) {
-				r.fail("failover/failed-probe-reinstated", fmt.Sprintf("the probe of endpoint %d failed but status=%v selectors rr=%b", sh.eid, adp.VerifC15Health().Status, s.rr))
-			}
-			r.classes["probe-failed"] = true
-		}
+		r.monOutcome(adp, ai, probe, ok, s)
 		if probe && ok {
 			if op.Defer {
 				r.pending = append(r.pending, ai)
@@ -648,11 +627,87 @@ func (r *c15Run) exec(op *c15Op, last bool) {
 		}
 		// ground truth for the "always" monitor: what the manager holds now
 		r.always("refresh", s)
-		lbl = append(lbl, fmt.Sprintf("(Refresh %s, %s)", c15List(l), r.obs(s, true)))
+		lbl = append(lbl, fmt.Sprintf("([Refresh %s], %s)", c15List(l), r.obs(s, true)))
 		op.Txt = fmt.Sprintf("refresh %v -> reg=%b rr=%b", l, s.reg, s.rr)
 		r.classes["refresh"] = true
 	}
 	op.Lbl = strings.Join(lbl, "; ")
+}
+
+// where the hash selectors alone would send this call (C14's manager-level clause)
+func (r *c15Run) hashWant(op *c15Op, ht tars.HashType) string {
+	if op.Hash == 0 {
+		return ""
+	}
+	_, ch, mh := r.mgr.Selectors()
+	m := &tars.Message{}
+	m.SetHash(op.Code, ht)
+	if op.Hash == 1 && mh != nil {
+		if ep, err := mh.Select(m); err == nil {
+			return ep.Host
+		}
+	}
+	if op.Hash == 2 && ch != nil {
+		if ep, err := ch.Select(m); err == nil {
+			return ep.Host
+		}
+	}
+	return ""
+}
+
+func (r *c15Run) selectedNone(op *c15Op, last bool) string {
+	s := r.snap()
+	if len(r.mgr.Registry()) > 0 {
+		r.fail("failover/select-none-with-registry", fmt.Sprintf("the registry lists %d endpoint(s) (active in rotation: %b) but SelectAdapterProxy returned no adapter: the call fails outright", len(r.mgr.Registry()), s.rr))
+	}
+	r.always("call", s)
+	op.Txt = "call: no adapter"
+	return fmt.Sprintf("([SelNone], %s)", r.obs(s, last))
+}
+
+// monitors at the moment an adapter has been selected for a call
+func (r *c15Run) monSelected(op *c15Op, before c15Snap, ai int, probe bool, hashWant string) {
+	sh := r.sh[ai]
+	if probe {
+		sh.probes++
+		if sh.probes > sh.enq {
+			r.fail("failover/probe-not-single", fmt.Sprintf("adapter %d (endpoint %d) handed out as probe %d times for %d queued request(s)", ai, sh.eid, sh.probes, sh.enq))
+		}
+		r.pcall[ai] = true
+		r.classes["probe-call"] = true
+		if op.Hash != 0 {
+			r.classes["probe-call-hash"] = true
+			if hashWant != "" && hashWant != c15Gates[sh.eid].host {
+				r.divert++
+				r.c14 = append(r.c14, Failure{Sig: "hash-routing/call-diverted-as-failover-probe", Desc: fmt.Sprintf("a call carrying hash type %d code %d is owned by endpoint %d under the current endpoint set but was sent to blocked endpoint %d as its failover probe", op.Hash, op.Code, c15EidOfHost(hashWant), sh.eid)})
+			}
+		}
+		return
+	}
+	if before.rr != 0 && !r.shrunk && before.rr&(1<<uint(sh.eid)) == 0 {
+		r.fail("failover/blocked-endpoint-selected", fmt.Sprintf("endpoint %d is out of rotation (rr=%b) but a normal call was routed to it", sh.eid, before.rr))
+	}
+	if before.rr == 0 {
+		r.classes["all-blocked-fallback"] = true
+	}
+	if op.Hash != 0 && hashWant != "" && hashWant != c15Gates[sh.eid].host {
+		r.c14 = append(r.c14, Failure{Sig: "hash-routing/ctx-not-routed-by-hash", Desc: fmt.Sprintf("hash type %d code %d: selector says endpoint %d, SelectAdapterProxy returned endpoint %d (no probe pending)", op.Hash, op.Code, c15EidOfHost(hashWant), sh.eid)})
+	}
+	if op.Hash != 0 {
+		r.classes["hash-call"] = true
+	}
+}
+
+// monitors once the outcome of the call has been accounted (s = snapshot after it, before any reinstatement)
+func (r *c15Run) monOutcome(adp *tars.AdapterProxy, ai int, probe, ok bool, s c15Snap) {
+	sh := r.sh[ai]
+	delete(r.pcall, ai)
+	if probe && !ok {
+		if adp.VerifC15Health().Status || (!r.shrunk && r.inAnySelector(s, sh.eid)) {
+			r.fail("failover/failed-probe-reinstated", fmt.Sprintf("the probe of endpoint %d failed but status=%v selectors rr=%b", sh.eid, adp.VerifC15Health().Status, s.rr))
+		}
+		r.classes["probe-failed"] = true
+	}
 }
 
 func popcount(x uint64) int {
@@ -683,12 +738,38 @@ func c15RunOnce(c *c15Case) (*c15Run, bool) {
 	for i := range r.reach {
 		r.reach[i] = true
 	}
+	for i, g := range c15Gates {
+		g.mu.Lock()
+		g.up = r.up[i]
+		g.got = nil
+		g.mu.Unlock()
+	}
+	if c.E2E {
+		c15InstallFilter()
+		r.e2e = true
+		r.timeoutMs = c.Timeout
+		if r.timeoutMs <= 0 {
+			r.timeoutMs = 40
+		}
+		r.sp = tars.VerifC15NewServant(comm, fmt.Sprintf("VerifC15.Srv%d.Obj", c15Seq), r.mgr)
+		r.sp.TarsSetTimeout(r.timeoutMs)
+	}
 	sec := time.Now().Unix()
+	r.wall = sec
 	for i := range c.Ops {
 		c.Ops[i].Lbl, c.Ops[i].Txt = "", ""
 		r.exec(&c.Ops[i], i == len(c.Ops)-1)
+		if r.straddled {
+			break
+		}
 	}
 	crossed := time.Now().Unix() != sec
+	if c.E2E {
+		crossed = r.straddled
+		if !crossed {
+			r.e2eFinish()
+		}
+	}
 	for _, a := range r.adps {
 		a.Close()
 	}
@@ -699,8 +780,9 @@ func c15RunCase(c *c15Case) []Failure {
 	var r *c15Run
 	c.Skipped = false
 	for try := 0; ; try++ {
-		// the code compares whole seconds: a history is only valid if it ran inside one wall-clock second
-		if ns := time.Now().Nanosecond(); ns > 850e6 {
+		// the code compares whole seconds: a direct-drive history is only valid if it ran inside one wall-clock second
+		// (real-call histories synchronise the model clock step by step instead, see c15e2e.go)
+		if ns := time.Now().Nanosecond(); !c.E2E && ns > 850e6 {
 			time.Sleep(time.Duration(1e9-ns) + 2*time.Millisecond)
 		}
 		var crossed bool
